@@ -45,6 +45,9 @@ LABEL_POOLS = [
     # all ints, max == n - 1 and min != 0 for every prefix of length >= 3: "looks like range(n)" by max / len / sum of
     # squares-free shortcuts, but is not
     [-1, 2, 0, 3, 4, 5],
+    # two comparable label types whose value order disagrees with the order of their type names (float sorts before int
+    # by ordering_key, whatever the values): non-integral floats next to ints
+    [1, 2.5, 0, -0.5, 3, "a"],
 ]
 # partner of equal hash for the labels of the last pool
 HASH_TWIN = {-1: -2, -2: -1, 0: 2 ** 61 - 1, 2 ** 61 - 1: 0}
